@@ -684,7 +684,7 @@ class C17(Check):
                    "generation sizes that only cost time (RSA/DSA/DH parameter sizes between 1025 and 2^47 bits, buffers above 1 MiB) are not generated",
                    "a call that does not return within 120 s is counted as inconclusive, not as a violation"]
     essential_labels = {"api_cases": 300, "store_cases": 150, "conf_cases": 40, "api_calls_past_validation": 1500, "store_token_listed": 50,
-                        "fuzz_store_execs": 500, "fuzz_conf_execs": 500, "fuzz_api_execs": 300}
+                        "fuzz_store_execs": 200, "fuzz_conf_execs": 200, "fuzz_api_execs": 100}
 
     def setup(self, ctx):
         ctx.shared["tpl"] = Template(ctx.env, ntokens=2)
